@@ -214,7 +214,8 @@ def run_impl(binp, comp, cases, subcmd="comp", timeout=900):
     """Run cases on the real component; returns list of outs (one per case)."""
     if not cases:
         return []
-    n = min(NPROC, max(1, len(cases) // 8))
+    # simulator runs are heavy (one trace each): one process per core; cheap component cases are batched
+    n = min(NPROC, max(1, len(cases) // (1 if subcmd in ("sim", "async") else 8)))
     chunks = [cases[i::n] for i in range(n)]
     procs = []
     for ch in chunks:
